@@ -562,6 +562,8 @@ var c15Progs = [][][]c15Op{
 	{{{Kind: "inval", Label: "A"}}, {{Kind: "inval", Label: "B"}}, {{Kind: "add", Name: "name1", Key: 2, Label: "B"}}},
 	{{{Kind: "inval", Label: "A"}}, {{Kind: "cache", Name: "name2"}, {Kind: "add", Name: "name2", Key: 3, Label: "A"}}},
 	{{{Kind: "add", Name: "name0", Key: 0, Label: "A"}}, {{Kind: "add", Name: "name0", Key: 0, Label: "B"}}, {{Kind: "inval", Label: "A"}}},
+	// two more keys get the label that is being invalidated (it already holds two keys of that cache)
+	{{{Kind: "inval", Label: "A"}}, {{Kind: "add", Name: "name1", Key: 2, Label: "A"}, {Kind: "add", Name: "name1", Key: 3, Label: "A"}}},
 }
 
 func c15Conc(cc c15Cell, env *Env) CellResult {
